@@ -1,5 +1,5 @@
 """Per-property checks.  Each returns a process exit code (0 held, 1 violation, 2 harness distrusts itself)."""
-import hashlib, json, os, sys, time
+import hashlib, json, os, re, subprocess, sys, time
 from build import Builder, Variant, BuildError
 import driver
 from driver import kv, Report, Symbolizer, fanout, process_violations, write_evidence, exec_prog
@@ -254,6 +254,16 @@ def build_alloc(b, flavours=("asan", "plain")):
     return exes, allv
 
 
+def build_hist(b, flavours=("asan", "plain")):
+    exes, allv = [], []
+    for fl in flavours:
+        vs = [Variant(v.name + ("_p" if fl == "plain" else ""), sse2=v.sse2, mmc=v.mmc, mzdcache=v.mzdcache, flavour=fl, knobs=True) for v in alloc_variants(fl)]
+        b.build_variants(vs)
+        exes.append(b.build_engine("hist_" + fl, ["gen.c", "eng/engutil.c", "eng/hist.c"], vs, fl))
+        allv += vs
+    return exes, allv
+
+
 def which_exe(exes, path):
     """asan/plain executables use different variant names (suffix _p): pick by the program's lib line"""
     try:
@@ -317,7 +327,7 @@ def check_C14(tier, seed, replay=None):
             mine = [v for v in vl if which_exe(exes, v["file"]) == exe]
             if mine:
                 process_violations(rep, exe, mine, None, outdir, seed, sig,
-                                   keep_pred=lambda l: l.startswith("#") or l.startswith("lib ") or l.startswith("world"))
+                                   keep_pred=lambda l: l.startswith("#") or l.startswith("lib ") or l.startswith("world"), tag="-" + os.path.basename(exe))
         samples = []
         per = (total + driver.NWORKERS - 1) // driver.NWORKERS
         for w in (0, 1, 6):
@@ -356,4 +366,174 @@ def check_C14(tier, seed, replay=None):
         b.cleanup()
 
 
-CHECKS = {"C20": check_C20, "C18": check_C18, "C14": check_C14}
+# ------------------------------------------------------------------ C10 / C11 (engine hist)
+ALLOC_WRAPPERS = {"_mm_malloc", "_mm_free", "m4ri_mm_malloc", "m4ri_mm_calloc", "m4ri_mm_malloc_aligned", "m4ri_mmc_malloc", "m4ri_mmc_calloc",
+                  "mzd_t_malloc", "mzd_init", "mzd_init_window", "mzd_init_window_const", "mzp_init", "mzp_init_window", "m4sim_malloc", "m4sim_calloc",
+                  "m4sim_posix_memalign", "m4sim_realloc", "sim_alloc", "posix_memalign", "malloc", "calloc", "??", "?"}
+
+
+def leaker(sym, bt):
+    """first function of the recorded call chain that is not an allocation wrapper"""
+    for a in [x for x in (bt or "").split(",") if x]:
+        try:
+            out = subprocess.run(["addr2line", "-f", "-i", "-e", sym.exe, hex(int(a, 16) - 1)], stdout=subprocess.PIPE, text=True).stdout.split("\n")
+        except Exception:
+            continue
+        for name in out[0::2]:
+            name = re.sub(r"^(?:[a-z0-9]+_p?_?)(?=(?:_?mzd_|_?mzp_|m4ri_|djb_|ple_|m4shim_))", "", name.strip())
+            if name and name not in ALLOC_WRAPPERS:
+                return name
+    return "-"
+
+
+def check_hist(prop, tier, seed, replay=None):
+    t0 = time.time()
+    rep = Report(prop)
+    b = Builder()
+    try:
+        exes, vs = build_hist(b)
+        syms = {e: Symbolizer(e) for e in exes}
+        if replay:
+            exe = which_exe(exes, replay)
+            r = exec_prog(exe, replay)
+            print(r.get("raw"))
+            ok = r.get("cls", "") == "ok"
+            if not ok:
+                print("VIOLATION property=%s replay=%s" % (r.get("prop", prop), replay))
+            return 0 if ok else 1
+        nops = 52
+        if prop == "C10":
+            total = nops * (48 if tier == "quick" else 640)
+        else:
+            total = nops * (32 if tier == "quick" else 480)
+        outdir = os.path.join(b.scratch, "out")
+        budget = 100 if tier == "quick" else 1400
+        lines, crashes = fanout(exes, seed, total, tier, outdir, budget)
+        ill_lines = []
+        if prop == "C11":
+            outdir2 = os.path.join(b.scratch, "out_ill")
+            nill = 21 * 8 * (6 if tier == "quick" else 80)
+            ill_lines, cr2 = fanout(exes[:1], seed, nill, tier, outdir2, budget, extra=["illdim"])
+            crashes += cr2
+        for cc in crashes:
+            rep.harness("hist worker %d exited with %d: %s" % (cc["worker"], cc["rc"], cc["tail"][-3:]))
+        hashes, vl, probes, classes, per_scen = [], [], {}, {}, {}
+        worlds = calls = states = stride_dirty = 0
+        ill_runs, ill_classes, ill_scen = 0, {}, {}
+        for w, l in lines:
+            tag, d = kv(l)
+            if tag == "R":
+                hashes.append((int(d["idx"]), d["hash"]))
+                classes[d["class"]] = classes.get(d["class"], 0) + 1
+                per_scen[d["scen"]] = per_scen.get(d["scen"], 0) + 1
+            elif tag == "T":
+                worlds += int(d["worlds"]); calls += int(d["calls"]); states = max(states, int(d["states"])); stride_dirty += int(d["stride_padding_dirty"])
+                for kk, v in d.items():
+                    if kk.startswith("p."):
+                        probes[kk[2:]] = probes.get(kk[2:], 0) + int(v)
+            elif tag == "V":
+                vl.append(d)
+        for w, l in ill_lines:
+            tag, d = kv(l)
+            if tag == "R":
+                ill_runs += 1
+                ill_classes[d["class"]] = ill_classes.get(d["class"], 0) + 1
+                ill_scen[d["scen"]] = ill_scen.get(d["scen"], 0) + 1
+            elif tag == "V":
+                vl.append(d)
+        if not hashes:
+            rep.harness("no run")
+        nskip = classes.get("SKIPPED", 0)
+        if nskip > len(hashes) // 10:
+            rep.harness("generator produced %d invalid programs out of %d" % (nskip, len(hashes)))
+        stuck = sorted(k for k, v in probes.items() if v == 0 and k != "header_pool_grew")
+        if tier == "thorough" and stuck:
+            rep.harness("reach probes stuck at zero: %s" % stuck)
+
+        for exe in exes:
+            mine = [v for v in vl if which_exe(exes, v["file"]) == exe]
+            if not mine:
+                continue
+            sym = syms[exe]
+
+            def sig(v, s, sym=sym):
+                who = v.get("func", "-")
+                scen = v.get("scen")
+                if v.get("class") in ("temporary_not_released", "header_slot_not_released", "invalid_or_double_free", "dirty_padding"):
+                    # these are found after ANY call of the run (history prefix included): the probe operation is not the culprit
+                    scen = "-"
+                if v.get("class") == "temporary_not_released":
+                    who = leaker(sym, v.get("bt"))
+                return "hist|%s|%s|%s" % (scen, v.get("class"), who)
+            process_violations(rep, exe, mine, None, outdir, seed, sig,
+                               keep_pred=lambda l: l.startswith("#") or l.startswith("lib ") or l.startswith("world 0") or l.startswith("illdim"),
+                               tag="-" + os.path.basename(exe))
+        samples = []
+        per = (total + driver.NWORKERS - 1) // driver.NWORKERS
+        for w in (0, 1, 7):
+            p = os.path.join(outdir, "cur-%d.prog" % (w * per))
+            if os.path.exists(p):
+                txt = open(p).read().split("\n")
+                keep = [l for l in txt if not l.startswith("prefix")][:30]
+                samples.append("\n".join(keep) + "\n(+ %d prefix lines)" % len([l for l in txt if l.startswith("prefix")]))
+        wall = time.time() - t0
+        mine_viol = [v for v in rep.violations if v[0] == prop]
+        if prop == "C10":
+            cov = dict(
+                evaluations=worlds, distinct_nontrivial=len(set(h for i, h in hashes)),
+                rule="one evaluation = one execution of a probe call in one world (history prefix + heap fill kind + recycling policy + junk in overwritten destinations); "
+                     "a run = one probe call in 4 (quick) or 8 (thorough) worlds, forked; distinct = distinct event-log hashes of runs; non-trivial = the probe call executed in every world",
+                samples=samples, runs=len(hashes), probe_calls=calls, outcome_classes=classes, runs_per_operation=per_scen,
+                states=states, state_measure="(occupied block-cache slots at probe time 0..16) x (heap fill kind) pairs seen",
+                fault_kinds_fired={"dirty heap fill (0xFF/0xA5/random/small indices/stale)": worlds - len(hashes),
+                                   "recycled block handed to the probe call": probes.get("probe_call_received_recycled_block", 0),
+                                   "destination prefilled with junk": probes.get("destination_prefilled_with_junk", 0),
+                                   "history prefix calls": probes.get("prefix_calls_executed", 0)},
+                reach_probes=probes, probes_stuck_at_zero=stuck,
+                stride_padding_words_found_nonzero=stride_dirty,
+                runs_per_hour=int(len(hashes) / max(wall, 1e-3) * 3600), seeds_per_hour=int(len(hashes) / max(wall, 1e-3) * 3600),
+                simulated_time="not applicable: no clock in this property",
+                run_hash_digest=digest(hashes), variants=[v.describe() for v in vs], source_sha256=b.sha,
+                real_components=["every library routine of the operation table"], simulated_components=["heap front end (fill, recycling, ledger)"])
+            write_evidence("C10", tier, seed, "exploration", cov,
+                           ["differential against world 0 of the same tree: a wrong result given identically in all worlds is silent here (that is C01-C08's business)",
+                            "outcome = value hash of all result/in-place matrices inside their columns, permutations, and scalar returns",
+                            "the odd-width stride padding word is measured (stride_padding_words_found_nonzero) but not alarmed on"],
+                           wall, len(mine_viol))
+        else:
+            cov = dict(
+                evaluations=worlds + ill_runs, distinct_nontrivial=len(set(h for i, h in hashes)) + len(ill_scen),
+                rule="evaluations = executions of a probe call in one world with the allocator ledger and ASan/UBSan active (clauses 1, 3 and the sampled input clause) plus forked "
+                     "ill-dimensioned calls (clause 2); distinct = distinct event-log hashes of runs + distinct ill-dimensioned wrappers",
+                samples=samples, runs=len(hashes), probe_calls=calls, outcome_classes=classes, runs_per_operation=per_scen,
+                illdim_runs=ill_runs, illdim_classes=ill_classes, illdim_wrappers=ill_scen,
+                fault_kinds_fired={"ill-dimensioned call to a checked wrapper": ill_runs, "dirty heap fill / recycling": worlds - len(hashes)},
+                reach_probes=probes, probes_stuck_at_zero=stuck,
+                runs_per_hour=int((len(hashes) + ill_runs) / max(wall, 1e-3) * 3600), seeds_per_hour=int((len(hashes) + ill_runs) / max(wall, 1e-3) * 3600),
+                simulated_time="not applicable: no clock in this property",
+                run_hash_digest=digest(hashes), variants=[v.describe() for v in vs], source_sha256=b.sha,
+                real_components=["every library routine of the operation table"], simulated_components=["heap front end (ledger, fill, recycling)", "abort() with operand snapshot comparison at the moment of death"])
+            write_evidence("C11", tier, seed, "exploration", cov,
+                           ["the input-universal clause (no out-of-bounds / UB for every valid input) is sampled by these workloads under ASan/UBSan, not decided",
+                            "header-slot balance in the default build is probed black-box at quiescence (64 headers fit the static pool, the 65th needs the heap)",
+                            "UB that no sanitizer reports is out of reach"],
+                           wall, len(mine_viol))
+        print("%s %s: %d runs, %d worlds, %d probe calls, classes %s%s, %.1fs" % (prop, tier, len(hashes), worlds, calls, classes,
+              (", illdim %s" % ill_classes) if prop == "C11" else "", wall))
+        return rep.exit_code()
+    except BuildError as e:
+        print("HARNESS-ERROR: build failed: %s" % e)
+        return 2
+    finally:
+        b.cleanup()
+
+
+def check_C10(tier, seed, replay=None):
+    return check_hist("C10", tier, seed, replay)
+
+
+def check_C11(tier, seed, replay=None):
+    return check_hist("C11", tier, seed, replay)
+
+
+CHECKS = {"C20": check_C20, "C18": check_C18, "C14": check_C14, "C10": check_C10, "C11": check_C11}
